@@ -121,6 +121,13 @@ def run(pid, tier, seed, replay=None):
             if pid in ("C01", "C03"):
                 import mtcheck
                 scripts += mtcheck.mt_fd_scripts(pid, seed, 6 if tier == "quick" else 60)
+            if pid == "C06":
+                # iv_quit from a task with other tasks queued behind it: they stay registered and run when the
+                # program enters the loop again
+                for m in coregen.METHODS:
+                    scripts.append("\n".join(["B C06q.%s method=%s seed=1 maxwait=14 keep=1" % (m, m), "O tk 1", "O tk 2", "O tk 3", "O tm 1",
+                                              "S tk_reg 1", "S tk_reg 2", "S tk_reg 3", "R tk 2 0 1 quit", "P tm_reg 1 1 0 300000000",
+                                              "P iv_main", "X"]) + "\n")
             if pid == "C07":
                 # a quit request made while the loop is not running is stale: the next iv_main runs normally
                 for m in coregen.METHODS:
@@ -250,7 +257,8 @@ def run(pid, tier, seed, replay=None):
 # disturb includes the delivery of later posts (rules of C08 / C09 on the programs of the C07 profile)
 # C07 "it blocks in the kernel only when nothing is due, and every wake-up makes progress": blocking with a
 # descriptor ready, a timer due or a task queued is decided by the rules of C02 / C04 / C06 on C07's programs
-ALSO = {"C05": ("C04:oversleep", "C04:early", "C04:starved"),
+# C06 "tasks that keep re-registering do not prevent ... timers ... from being serviced": timer rules of C04
+ALSO = {"C05": ("C04:oversleep", "C04:early", "C04:starved"), "C06": ("C04:starved", "C04:oversleep"),
         "C07": ("C08:lost", "C09:lost", "C04:oversleep", "C04:starved", "C06:nonzero-timeout", "C06:sleep-with-task",
                 "C02:sleep-on-ready")}
 
